@@ -1,3 +1,11 @@
 """native oracles for C02 replays (shared implementations)"""
 from .native_common import Skip
 from .native_funcs import NATIVE, SEARCH
+
+# C02 reuses C08's arma2psd contract task: its replays need C08's direct-formula oracle (rho/T * |B(f)|^2 / |A(f)|^2 by numpy
+# polynomial evaluation, not the library's own routine)
+from .C08_native import NATIVE as _N8, SEARCH as _S8
+NATIVE = dict(NATIVE)
+SEARCH = dict(SEARCH)
+NATIVE["arma2psd"] = _N8["arma2psd"]
+SEARCH["arma2psd"] = _S8["arma2psd"]
